@@ -217,6 +217,10 @@ def predictAt (st : St) (sc : Scn) (n : Nat) : Option String := do
   let d ← stateAt st sc n
   pure (showRec (recover bcAT st.tbl d))
 
+/-- kernels per block as the crash harness builds blocks: the coinbase kernel, and one kernel for
+the block's single transaction when it spends -/
+def kcH (b : BlkInfo) : Nat := if b.ins.isEmpty then 1 else 2
+
 /-- kernel size / data file at the `n`-th crash point (`Model/CrashKernel.lean`); scenarios with one
 acceptance and the head reset; elsewhere the files are taken to hold what the kernel data file holds -/
 def kAt (st : St) (sc : Scn) (n : Nat) : Option KFiles := do
@@ -228,8 +232,8 @@ def kAt (st : St) (sc : Scn) (n : Nat) : Option KFiles := do
   let t : Target := { newPath, forkLen := if sc.kind == "reset" then newPath.length else commonPrefixLen oldPath newPath,
                       movesHHead := false, movesHead := false }
   pure ((sc.labels.take n).foldl (fun k l => match kstepOfLabel l with
-    | some s => applyKStep t k s
-    | none => k) (kOfIds (oldPath.map (·.id))))
+    | some s => applyKStep kcH t k s
+    | none => k) (kOfPath kcH oldPath))
 
 /-- a second process death at the `m`-th crash point of the restart that follows the `n`-th crash
 point: the model's recovery lists its durable writes, the real labels are walked along them; the
@@ -240,11 +244,11 @@ def predictSecond (st : St) (sc : Scn) (n m : Nat) : Option String := do
   let rl ← (sc.rlabels.find? (·.1 == n)).map (·.2)
   let ins := (recoverS bcAT st.tbl d).1
   let commits := (rl.filter (·.startsWith "lmdb:after-commit")).length
-  let k1 := kOpen ((kAt st sc n).getD (kOfIds d.kerData))
+  let k1 := kOpen ((kAt st sc n).getD (kOfPath kcH (d.kerData.filterMap fun id => st.tbl.find? (·.id == id))))
   match walkLabels (rl.take m) commits ins d with
   | none => pure "recovery-steps-differ-from-model"
   | some d2 =>
-    let k2 := walkK (rl.take m) ins k1
+    let k2 := walkK kcH (rl.take m) ins k1
     if !kReadable d2.kerHash.length (kOpen k2) then pure "open=err:TxHashSetErr"
     else pure (showRec (recover bcAT st.tbl d2))
 
